@@ -758,3 +758,223 @@ def check_clip_to_viewbox(repo: Repo, rep: Report, rule: str):
         rep.fail(rule, F, "clip_to_viewbox on schematic documents", f"{len(u)} deviations; first: {u[0]}", svg, fn)
     else:
         rep.ok(rule, F, f"2 view boxes (one with negative origin), 9 shapes by bounding box position, {n} paths: outside dropped, inside untouched, straddling intersected with the visible rectangle under (fill-rule, nonzero)", True)
+
+
+# =========================================================================================== reference render list
+XLINK_HREF = "{http://www.w3.org/1999/xlink}href"
+_INHERITED = ("fill", "stroke", "stroke-width", "fill-rule", "clip-rule", "stroke-linecap", "display")
+_SHAPES = ("path", "rect", "circle", "ellipse", "line", "polygon", "polyline")
+
+
+def _num(v):
+    if isinstance(v, NumAttr):
+        from sa.sym import simplify_num
+        return simplify_num(v.rf)
+    if isinstance(v, str):
+        f = Fraction(v)
+        return int(f) if f.denominator == 1 else f
+    return v
+
+
+def _translate_name(x, y):
+    from sa.sym import simplify_num
+    return f"translate({simplify_num(x)!r},{simplify_num(y)!r})"
+
+
+def _is_zero(v):
+    from sa.sym import is_num, to_rf
+    return is_num(v) and to_rf(v).is_zero()
+
+
+def _own_tf(attr):
+    """Application-order tuple of a transform attribute value as the abstract machine names it."""
+    if not attr:
+        return ()
+    tok = parse_affine(attr) if isinstance(attr, str) else attr
+    return tuple(tok.app)
+
+
+def ref_render(root: El, viewport=None):
+    """The SVG rendering model on the abstract DOM, for the structural features of C02/C05: document-order list of
+    painted leaves with accumulated transform (application order), cascaded paint attributes, product of the
+    opacities on the ancestor chain, and the stack of clips (each with the coordinate system it is resolved in).
+    <use> renders its target under translate(x,y) then the use's transform, inheriting from the use;
+    a nested <svg> maps its viewBox onto its viewport and clips to the viewport unless overflow is visible."""
+    by_id = {str(n.attrib["id"]): n for n in root.subtree() if isinstance(n.tag, str) and "id" in n.attrib}
+    out = []
+
+    def geom(n):
+        keys = ("d", "x", "y", "width", "height", "rx", "ry", "cx", "cy", "r", "x1", "y1", "x2", "y2", "points")
+        return (n.local(),) + tuple((k, repr(n.attrib[k])) for k in keys if k in n.attrib)
+
+    def clip_key(url):
+        """A clip that is a plain rectangle (generated for a viewport) is identified by its rectangle, not its id."""
+        u = str(url)
+        tgt = by_id.get(u[5:-1]) if u.startswith("url(#") else None
+        kids = [c for c in tgt.children if isinstance(c.tag, str)] if tgt is not None else []
+        if tgt is not None and tgt.local() == "clipPath" and len(kids) == 1 and kids[0].local() == "rect" and "transform" not in kids[0].attrib and "transform" not in tgt.attrib \
+                and "clip-path" not in tgt.attrib:
+            a = kids[0].attrib
+            return ("viewport", tuple(_num(a.get(k, "0")) for k in ("x", "y", "width", "height")))
+        return u
+
+    def rec(n, tf, inh, opacity, clips, vp):
+        if not isinstance(n.tag, str):
+            return
+        loc = n.local()
+        if loc in ("defs", "clipPath", "linearGradient", "radialGradient", "title", "desc", "metadata", "symbol"):
+            return
+        at = n.attrib
+        cur = dict(inh)
+        for k in _INHERITED:
+            if k in at:
+                cur[k] = str(at[k])
+        if cur.get("display") == "none":
+            return
+        op = opacity * Fraction(str(at.get("opacity", "1")))
+        own = _own_tf(at.get("transform"))
+        if loc == "use":
+            x, y = _num(at.get("x", "0")), _num(at.get("y", "0"))
+            off = () if (_is_zero(x) and _is_zero(y)) else (_translate_name(x, y),)
+            ntf = off + own + tf
+            ncl = clips + (((clip_key(at["clip-path"]), ntf),) if at.get("clip-path") and at["clip-path"] != "none" else ())
+            tgt = by_id.get(str(at.get(XLINK_HREF, ""))[1:])
+            if tgt is not None:
+                rec(tgt, ntf, cur, op, ncl, vp)
+            return
+        if loc == "svg" and n is not root:
+            x, y = _num(at.get("x", "0")), _num(at.get("y", "0"))
+            w, h = _num(at.get("width", vp[0])), _num(at.get("height", vp[1]))
+            if "viewBox" in at:
+                vb = tuple(_num(v) for v in str(at["viewBox"]).replace(",", " ").split())
+            else:
+                vb = (x, y, w, h)
+            if tuple(vb) != (x, y, w, h):
+                par = str(at.get("preserveAspectRatio", "xMidYMid"))
+                m = (f"rect_to_rect(Rect(x={vb[0]!r}, y={vb[1]!r}, w={vb[2]!r}, h={vb[3]!r})->Rect(x={x!r}, y={y!r}, w={w!r}, h={h!r}),{par!r})",)
+            else:
+                m = () if (_is_zero(x) and _is_zero(y)) else (_translate_name(x, y),)
+            ntf = m + own + tf
+            ncl = clips
+            if str(at.get("overflow", "hidden")) != "visible":
+                ncl = clips + ((("viewport", (x, y, w, h)), tf),)
+            for c in n.children:
+                rec(c, ntf, cur, op, ncl, (vb[2], vb[3]))
+            return
+        ntf = own + tf
+        ncl = clips + (((clip_key(at["clip-path"]), ntf),) if at.get("clip-path") and at["clip-path"] != "none" else ())
+        if loc in _SHAPES:
+            out.append({"geom": geom(n), "tf": ntf, "paint": tuple((k, cur.get(k)) for k in _INHERITED if k != "display"), "opacity": op, "clips": ncl})
+            return
+        for c in n.children:
+            rec(c, ntf, cur, op, ncl, vp)
+
+    rec(root, (), {}, Fraction(1), (), viewport)
+    return out
+
+
+def _diff_render(got, want):
+    if len(got) != len(want):
+        return f"{len(got)} painted shapes, the rendering model gives {len(want)}: {[g['geom'][:2] for g in got]} vs {[w['geom'][:2] for w in want]}"
+    for i, (g, w) in enumerate(zip(got, want)):
+        for k in ("geom", "tf", "paint", "opacity", "clips"):
+            if g[k] != w[k]:
+                return f"painted shape {i} ({w['geom'][:2]}): {k} is {g[k]!r}, the rendering model gives {w[k]!r}"
+    return None
+
+
+# =========================================================================================== resolve_use
+def _use_doc():
+    t1 = El("path", {"id": "t1", "d": pd(("M", (1, 1)), ("L", (2, 2))), "fill": "blue", "transform": "tT"}, name="t1")
+    t2 = El("g", {"id": "t2", "opacity": "0.5"}, [El("path", {"id": "a", "d": pd(("M", (3, 3)))}, name="a"), El("path", {"id": "b", "d": pd(("M", (4, 4))), "fill": "none"}, name="b")], name="t2")
+    t3 = El("g", {"id": "t3"}, [El("use", {XLINK_HREF: "#t1", "x": "1"}, name="inner-use")], name="t3")
+    t4 = El("rect", {"id": "t4", "width": "3", "height": "2"}, name="t4")
+    defs = El("defs", {}, [t1, t2, t3, t4], name="defs")
+    u1 = El("use", {XLINK_HREF: "#t1", "x": N("ux"), "y": N("uy"), "transform": "tU", "fill": "red", "opacity": "0.3", "width": "5", "height": "6", "id": "u1"}, name="u1")
+    u2 = El("use", {XLINK_HREF: "#t2", "stroke": "green"}, name="u2")
+    u3 = El("use", {XLINK_HREF: "#t1", "y": "7"}, name="u3")
+    u4 = El("use", {XLINK_HREF: "#t3", "transform": "tV"}, name="u4")
+    u5 = El("use", {XLINK_HREF: "#t4", "fill": "red", "x": "2"}, name="u5")
+    mid = El("path", {"id": "mid", "d": pd(("M", (9, 9)))}, name="mid")
+    root = El("svg", {"viewBox": "0 0 10 10"}, [defs, u1, mid, u2, El("g", {"id": "wrap", "opacity": "0.7"}, [u3, u4], name="wrap"), u5], name="root")
+    return root
+
+
+def check_resolve_use(repo: Repo, rep: Report, rules: Dict[str, str]):
+    """rules: 'render' (same render list as the SVG use semantics), 'ids' (no id on instantiated content, targets untouched), 'gone' (no use left)"""
+    svg = repo["svg"]
+    F = "svg.SVG._resolve_use"
+    rep.saw(F, "svg.SVG.resolve_use", "svg.SVG._check_use_acyclic", "svg._try_remove_group", "svg._inherit_attrib")
+    fn = svg.func("SVG._resolve_use")
+    want = ref_render(_use_doc())
+    ids_before = sorted(str(n.attrib["id"]) for n in _use_doc().subtree() if isinstance(n.tag, str) and "id" in n.attrib and n.local() != "use")
+    outs = ok_outcomes(run(repo, "SVG.resolve_use", lambda: ([make_svg(_use_doc())], {"inplace": True})), F)
+    probs = {"render": [], "ids": [], "gone": []}
+    for o in outs:
+        if o.raised:
+            for k in probs:
+                probs[k].append(f"resolve_use raises {o.raised} ({o.raise_msg}) on the schematic document")
+            continue
+        root = o.args[0].f["svg_root"]
+        left = [n for n in root.subtree() if isinstance(n.tag, str) and n.local() == "use"]
+        if left:
+            probs["gone"].append(f"{len(left)} <use> elements remain")
+            continue
+        d = _diff_render(ref_render(root), want)
+        if d:
+            probs["render"].append(d)
+        ids = sorted(str(n.attrib["id"]) for n in root.subtree() if isinstance(n.tag, str) and "id" in n.attrib)
+        if len(ids) != len(set(ids)):
+            probs["ids"].append(f"duplicate ids after instancing: {sorted(i for i in set(ids) if ids.count(i) > 1)}")
+        if [i for i in ids_before if i not in ids]:
+            probs["ids"].append(f"ids of the referenced originals vanished: {[i for i in ids_before if i not in ids]}")
+    what = {"render": "instances render as the SVG use semantics prescribe (geometry, transform order, cascade, opacity, z-order)", "ids": "ids after instancing", "gone": "every use is instantiated"}
+    for k, rid in rules.items():
+        if probs[k]:
+            rep.fail(rid, F, what[k], f"{len(probs[k])} deviations; first: {probs[k][0]}", svg, fn)
+        else:
+            rep.ok(rid, F + f" [{k}]", f"schematic document with 5 uses (offsets, transforms, group target, nested use, basic shape, shared target): {what[k]}", True)
+
+
+# =========================================================================================== nested svg
+def _nested_doc():
+    i2 = El("path", {"id": "i2", "d": pd(("M", (2, 2)))}, name="i2")
+    n2 = El("svg", {"id": "n2", "viewBox": "0 0 20 10"}, [i2], name="n2")
+    i1 = El("path", {"id": "i1", "d": pd(("M", (1, 1))), "fill": "blue"}, name="i1")
+    n1 = El("svg", {"id": "n1", "x": "10", "y": "20", "width": "50", "height": "40", "viewBox": "0 0 200 100", "preserveAspectRatio": "xMinYMax slice", "transform": "tS", "fill": "red"},
+            [i1, n2], name="n1")
+    n3 = El("svg", {"id": "n3", "x": "5", "y": "6", "width": "30", "height": "30", "overflow": "visible"}, [El("path", {"id": "i3", "d": pd(("M", (3, 3)))}, name="i3")], name="n3")
+    n4 = El("svg", {"id": "n4", "width": "100", "height": "100", "opacity": "0.5"}, [El("path", {"id": "i4", "d": pd(("M", (4, 4)))}, name="i4")], name="n4")
+    root = El("svg", {"viewBox": "0 0 100 100"},
+              [El("path", {"id": "before", "d": pd(("M", (0, 0)))}, name="before"), n1, El("g", {"id": "gg", "transform": "tG"}, [n3], name="gg"), n4,
+               El("path", {"id": "after", "d": pd(("M", (9, 9)))}, name="after")], name="root")
+    return root
+
+
+def check_nested_svg(repo: Repo, rep: Report, rule: str):
+    svg = repo["svg"]
+    F = "svg.SVG._unnest_svg"
+    rep.saw(F, "svg.SVG.resolve_nested_svgs", "svg.SVG._iter_nested_svgs", "svg.SVG._swap_elements")
+    fn = svg.func("SVG._unnest_svg")
+    want = ref_render(_nested_doc(), viewport=(100, 100))
+    outs = ok_outcomes(run(repo, "SVG.resolve_nested_svgs", lambda: ([make_svg(_nested_doc())], {"inplace": True})), F)
+    probs = []
+    for o in outs:
+        if o.raised:
+            probs.append(f"resolve_nested_svgs raises {o.raised} ({o.raise_msg}) on the schematic document")
+            continue
+        root = o.args[0].f["svg_root"]
+        if [n for n in root.subtree() if isinstance(n.tag, str) and n.local() == "svg" and n is not root]:
+            probs.append("a nested <svg> remains")
+            continue
+        d = _diff_render(ref_render(root, viewport=(100, 100)), want)
+        if d:
+            probs.append(d)
+        ids = [str(n.attrib["id"]) for n in root.subtree() if isinstance(n.tag, str) and "id" in n.attrib]
+        if len(ids) != len(set(ids)):
+            probs.append(f"duplicate ids after un-nesting: {sorted(i for i in set(ids) if ids.count(i) > 1)}")
+    if probs:
+        rep.fail(rule, F, "nested svg viewports on the schematic document", f"{len(probs)} deviations; first: {probs[0]}", svg, fn)
+    else:
+        rep.ok(rule, F, "4 nested svgs (viewBox + preserveAspectRatio + transform, nested without size, overflow visible, plain viewport): render list equals the SVG viewport model "
+                        "(viewBox mapped onto the viewport first, then the element's transform; default size = enclosing viewBox extent; clip to the viewport unless visible; order kept)", True)
